@@ -274,4 +274,50 @@ def cleanerRangeF (start end_ h : Rat) (dec : Nat) : Option (List Rat) :=
 def decimalGrid (S D : Int) (m : Nat) (len : Nat) : List Rat :=
   (List.range len).map (fun (k : Nat) => fl64 (((S + ((k : Nat) : Int) * D : Int) : Rat) / ((10 ^ m : Nat) : Rat)))
 
+/-! ## discretize (calc.py:37-55) -/
+
+/-- the exceptions `discretize` can raise (calc.py:46, :48, :49, :53) -/
+inductive DiscErr where
+  | valueError      -- empty `bin_edges` (:46) or `bin_edges[1] < bin_edges[0]` (:49)
+  | indexError      -- a single edge: `bin_edges[1]` (:48) is out of bounds
+  | csepException   -- some value is out of range (`idx == -1`, :53)
+  deriving DecidableEq, Repr
+
+/-- `discretize(data, bin_edges, right_continuous)`: argument checks, `bin1d_vec` with the default tolerance, rejection of
+any out-of-range value, then `bin_edges[idx]` (the left edge of each value's bin, in the edges' dtype). `pd` / `bd` are the
+dtypes of `numpy.array(data)` / `numpy.array(bin_edges)`. -/
+def discretizeF (pd bd : DT) (rc : Bool) (bins data : List Rat) : Except DiscErr (List Rat) :=
+  let c : Cfg := { pd := pd, bd := bd, tol := none, rc := rc }
+  if bins.length = 0 then .error .valueError
+  else if bins.length = 1 then .error .indexError
+  else if bins.getD 1 0 < bins.getD 0 0 then .error .valueError
+  else
+    let idx := data.map (bin1dF c bins)
+    if idx.any (fun i => i == -1) then .error .csepException
+    else .ok (idx.map (fun i => bins.getD i.toNat 0))
+
+/-! ## Bool form of the hypotheses of the float theorems (`RegularF64Grid`, `PointOK` of Proofs/Bin1dUpper.lean) -/
+
+/-- consecutive elements strictly increasing -/
+def sortedLtB : List Rat → Bool
+  | a :: b :: t => decide (a < b) && sortedLtB (b :: t)
+  | _ => true
+
+/-- `RegularF64Grid bins` as a Bool: 2 ≤ n ≤ 2^40 strictly increasing float64 edges, float step ≥ 2^-1021, every edge within
+h/4 of `a0 + j·h` (soundness: `Bin1d.regularGridB_sound`) -/
+def regularGridB (bins : List Rat) : Bool :=
+  let n := bins.length
+  let edge := fun k => bins.getD k 0
+  let h := hOf .f64 n edge
+  decide (1 < n) && decide (n ≤ 2 ^ 40) && sortedLtB bins && bins.all (fun e => fl64 e == e)
+    && decide (pow2 (-1021) ≤ h)
+    && (List.range n).all (fun j =>
+      decide (edge 0 + (((j : Nat) : Rat) - 1 / 4) * h ≤ edge j) && decide (edge j ≤ edge 0 + (((j : Nat) : Rat) + 1 / 4) * h))
+
+/-- `PointOK bins p` as a Bool -/
+def pointOKB (bins : List Rat) (p : Rat) : Bool :=
+  let n := bins.length
+  let edge := fun k => bins.getD k 0
+  (fl64 p == p) && decide ((((n : Nat) : Rat) + 1) * getTol .f64 (edge 0) + getTol .f64 p ≤ hOf .f64 n edge / 2)
+
 end Bin1d
